@@ -13,18 +13,19 @@ import (
 
 // Exec verifies one top-level function.
 type Exec struct {
-	e        *Engine
-	c        *Ctx
-	top      *ssa.Function
-	frameSeq int
-	budget   int // remaining inlined instructions
-	props    []string
-	smoke    bool
+	e                *Engine
+	c                *Ctx
+	top              *ssa.Function
+	frameSeq         int
+	budget           int // remaining inlined instructions
+	props            []string
+	smoke            bool
 	funcsUsedModular map[string]bool
 	funcsInlined     map[string]bool
 	funcsAbstracted  map[string]bool
 	externs          map[string]bool
 	lemmasUsed       map[string]bool
+	id               int
 }
 
 type sval struct {
@@ -35,24 +36,25 @@ type sval struct {
 }
 
 type Frame struct {
-	x        *Exec
-	fn       *ssa.Function
-	id       int
-	env      map[ssa.Value]Term
-	tuples   map[ssa.Value][]Term
-	allocRef map[*ssa.Alloc]Term
-	depth    int
-	path     string
-	contract *Contract
-	entry    *State
-	cur      *State
-	params   map[string]sval
-	rets     []retInfo
-	top      bool
-	stack    []*ssa.Function
-	loops    map[*ssa.BasicBlock]*loopInfo
-	loopOrd  map[*ssa.BasicBlock]int
-	dead     bool
+	x         *Exec
+	fn        *ssa.Function
+	id        int
+	env       map[ssa.Value]Term
+	tuples    map[ssa.Value][]Term
+	allocRef  map[*ssa.Alloc]Term
+	depth     int
+	path      string
+	contract  *Contract
+	entry     *State
+	cur       *State
+	params    map[string]sval
+	rets      []retInfo
+	top       bool
+	stack     []*ssa.Function
+	loops     map[*ssa.BasicBlock]*loopInfo
+	loopOrd   map[*ssa.BasicBlock]int
+	dead      bool
+	rangeComp map[ssa.Value]string
 }
 
 type retInfo struct {
@@ -240,7 +242,7 @@ func (fr *Frame) cellName(a *ssa.Alloc) string {
 	if name == "" {
 		name = a.Name()
 	}
-	return fmt.Sprintf("L.%d.%s.%s", fr.id, name, a.Name())
+	return fmt.Sprintf("L.%d.%d.%s.%s", fr.x.id, fr.id, name, a.Name())
 }
 
 func isObjectType(t types.Type) bool {
@@ -287,7 +289,7 @@ func (fr *Frame) addrOf(v ssa.Value) Addr {
 	case *ssa.FreeVar:
 		// captured variable: pointer to a cell of the enclosing function; treat as an unknown cell
 		el := ptrElem(a.Type())
-		name := fmt.Sprintf("L.0.free.%s.%s", fr.fn.Name(), a.Name())
+		name := fmt.Sprintf("L.%d.0.free.%s.%s", fr.x.id, fr.fn.Name(), a.Name())
 		fr.x.compSort(name, sortOf(el))
 		if isObjectType(el) {
 			return Addr{kind: aNone, ref: fr.val(v), elem: el}
@@ -496,6 +498,10 @@ func (fr *Frame) load(a Addr, in ssa.Instruction) Term {
 	case aField:
 		t := c.define("ld", sortOf(a.elem), fr.selectComp(a))
 		fr.loadFacts(a.elem, t)
+		if fr.x.e.cf.NonNil[a.comp] {
+			// object invariant: checked at every store to this field and at the end of every constructor
+			c.fact(not(eq(t, zeroOf(a.elem))))
+		}
 		return t
 	case aMem:
 		if _, isStruct := a.elem.Underlying().(*types.Struct); isStruct {
@@ -562,6 +568,9 @@ func (fr *Frame) store(a Addr, v Term, vt types.Type, in ssa.Instruction) {
 		if _, isStruct := a.elem.Underlying().(*types.Struct); isStruct && fr.isLocalStruct(a.elem) {
 			fr.copyStruct(a.elem, v, baseInfo{a.comp, a.ref, a.idx})
 			return
+		}
+		if fr.x.e.cf.NonNil[a.comp] && in != nil {
+			fr.oblige("nonnil", "field "+a.comp+" is declared never-nil: stored value is non-nil", in, not(eq(v, zeroOf(a.elem))))
 		}
 		fr.storeComp(a, v)
 		return
@@ -1180,6 +1189,7 @@ func (fr *Frame) instr(in ssa.Instruction) {
 			vals = append(vals, fr.val(r))
 		}
 		fr.rets = append(fr.rets, retInfo{fr.cur, vals})
+		fr.checkConstructed(s)
 		if fr.top {
 			fr.checkPost(s, vals)
 		}
@@ -1194,9 +1204,7 @@ func (fr *Frame) instr(in ssa.Instruction) {
 		c.fact(lt("0", t))
 		_ = id
 		fr.env[s] = t
-		for _, b := range s.Bindings {
-			_ = b
-		}
+		fr.checkClosurePre(s, f)
 	case *ssa.MakeMap:
 		fr.env[s] = fr.newRef("map")
 		// fresh map: no keys present
@@ -1208,6 +1216,9 @@ func (fr *Frame) instr(in ssa.Instruction) {
 	case *ssa.MapUpdate:
 		m := fr.val(s.Map)
 		fr.oblige("nilmap", "assignment to entry in non-nil map", in, not(eq(m, "0")))
+		if comp := fr.mapFieldComp(s.Map); comp != "" && fr.x.e.cf.NonNilElems[comp] {
+			fr.oblige("nonnil", "values stored in map "+comp+" are never nil", in, not(eq(fr.val(s.Value), zeroOf(s.Value.Type()))))
+		}
 		if sortOf(s.Key.Type()) == "Int" && sortOf(s.Value.Type()) == "Int" && !isString(s.Key.Type()) {
 			k := fr.val(s.Key)
 			mp, ok := fr.cur.get("MAP"), fr.cur.get("MAPOK")
@@ -1234,6 +1245,12 @@ func (fr *Frame) instr(in ssa.Instruction) {
 		fr.tuples[s] = res
 	case *ssa.Range:
 		fr.env[s] = fr.c().fresh("range", "Int")
+		if comp := fr.mapFieldComp(s.X); comp != "" {
+			if fr.rangeComp == nil {
+				fr.rangeComp = map[ssa.Value]string{}
+			}
+			fr.rangeComp[s] = comp
+		}
 		c.note("range over map/string abstracted in " + fr.fn.Name())
 	case *ssa.Next:
 		tup := s.Type().(*types.Tuple)
@@ -1244,6 +1261,9 @@ func (fr *Frame) instr(in ssa.Instruction) {
 				continue
 			}
 			res = append(res, fr.freshVal("next", tup.At(i).Type()))
+		}
+		if comp := fr.rangeComp[s.Iter]; comp != "" && fr.x.e.cf.NonNilElems[comp] && len(res) == 3 {
+			c.assume(imp(res[0], not(eq(res[2], zeroOf(tup.At(2).Type())))))
 		}
 		fr.tuples[s] = res
 	default:
@@ -1323,7 +1343,7 @@ func (fr *Frame) predCond(b *ssa.BasicBlock, i int) Term {
 
 func (fr *Frame) nilCheckAddr(addr ssa.Value, in ssa.Instruction) {
 	switch a := addr.(type) {
-	case *ssa.Alloc, *ssa.Global, *ssa.FieldAddr, *ssa.IndexAddr:
+	case *ssa.Alloc, *ssa.Global, *ssa.FieldAddr, *ssa.IndexAddr, *ssa.FreeVar:
 		return
 	case *ssa.Convert, *ssa.ChangeType:
 		_ = a
@@ -1349,6 +1369,30 @@ func (fr *Frame) unop(s *ssa.UnOp) {
 			if id, ok := fr.x.e.errGlobals[g.Name()]; ok {
 				fr.env[s] = num(int64(id))
 				return
+			}
+			if _, ok := fr.x.e.tables[g.Name()]; ok {
+				// immutable function table: known length, symbolic region
+				reg := c.declareNamed("greg."+g.Name(), "Int")
+				c.fact(eq(reg, num(int64(-500-len(g.Name())*7-int(g.Name()[0])))))
+				n := num(fr.x.e.tableLen[g.Name()])
+				fr.env[s] = app("mk-slice", reg, "0", n, n)
+				return
+			}
+		}
+		// element of an immutable function table
+		if ia, ok := s.X.(*ssa.IndexAddr); ok {
+			if ld, ok := ia.X.(*ssa.UnOp); ok {
+				if g, ok := ld.X.(*ssa.Global); ok && g.Pkg == fr.x.e.pkg {
+					if tab, ok := fr.x.e.tables[g.Name()]; ok {
+						idx := fr.val(ia.Index)
+						t := Term("0")
+						for _, cd := range sortedCands(tab) {
+							t = ite(eq(idx, num(cd.key)), num(int64(fr.x.e.funcID[cd.fn])), t)
+						}
+						fr.env[s] = c.define("tabfn", "Int", t)
+						return
+					}
+				}
 			}
 		}
 		fr.env[s] = fr.load(a, s)
@@ -1793,11 +1837,34 @@ func (fr *Frame) lookup(s *ssa.Lookup) {
 		return
 	}
 	mt := s.X.Type().Underlying().(*types.Map)
+	// immutable map table of functions (written only by init)
+	if ld, ok := s.X.(*ssa.UnOp); ok {
+		if g, ok := ld.X.(*ssa.Global); ok && g.Pkg == fr.x.e.pkg {
+			if tab, ok := fr.x.e.mapTables[g.Name()]; ok {
+				idx := fr.val(s.Index)
+				v, okT := Term("0"), Term("false")
+				for _, cd := range sortedCands(tab) {
+					v = ite(eq(idx, num(cd.key)), num(int64(fr.x.e.funcID[cd.fn])), v)
+					okT = or(okT, eq(idx, num(cd.key)))
+				}
+				v = c.define("tabfn", "Int", v)
+				if s.CommaOk {
+					fr.tuples[s] = []Term{v, c.define("tabok", "Bool", okT)}
+				} else {
+					fr.env[s] = v
+				}
+				return
+			}
+		}
+	}
 	if sortOf(mt.Key()) == "Int" && !isString(mt.Key()) && sortOf(mt.Elem()) == "Int" {
 		m := fr.val(s.X)
 		k := fr.val(s.Index)
 		okT := c.define("mok", "Bool", and(not(eq(m, "0")), app("select", app("select", fr.cur.get("MAPOK"), m), k)))
 		v := c.define("mval", "Int", ite(okT, app("select", app("select", fr.cur.get("MAP"), m), k), zeroOf(mt.Elem())))
+		if comp := fr.mapFieldComp(s.X); comp != "" && fr.x.e.cf.NonNilElems[comp] {
+			c.fact(imp(okT, not(eq(v, "0"))))
+		}
 		fr.loadFacts(mt.Elem(), v)
 		if s.CommaOk {
 			fr.tuples[s] = []Term{v, okT}
@@ -1822,4 +1889,89 @@ func (*bigInt) quoPow2(p int, d int64) string {
 	// 2^p / d as decimal string
 	v := int64(1) << uint(p)
 	return fmt.Sprint(v / d)
+}
+
+// checkConstructed: every object allocated by this function satisfies the declared never-nil
+// field invariants when the function returns (constructors must initialise them).
+func (fr *Frame) checkConstructed(ret *ssa.Return) {
+	if len(fr.x.e.cf.NonNil) == 0 {
+		return
+	}
+	var allocs []*ssa.Alloc
+	for a := range fr.allocRef {
+		allocs = append(allocs, a)
+	}
+	sort.Slice(allocs, func(i, j int) bool { return allocs[i].Pos() < allocs[j].Pos() })
+	for _, a := range allocs {
+		if !a.Heap {
+			continue
+		}
+		el := ptrElem(a.Type())
+		if _, isS := el.Underlying().(*types.Struct); !isS || !fr.isLocalStruct(el) {
+			continue
+		}
+		for _, l := range fr.structLeaves(el) {
+			if fr.x.e.cf.NonNil[l.path] && l.arr == 0 {
+				v := app("select", fr.cur.get(l.path), fr.allocRef[a])
+				fr.oblige("nonnil", "constructed object: field "+l.path+" is non-nil when the constructor returns", ret, not(eq(v, zeroOf(l.typ))))
+			}
+		}
+	}
+}
+
+// checkClosurePre: a closure with a contract has its preconditions checked where it is created
+// (they may only speak about captured variables and fields that cannot change before it runs).
+func (fr *Frame) checkClosurePre(mc *ssa.MakeClosure, f *ssa.Function) {
+	e := fr.x.e
+	ct := e.cf.Funcs[f.RelString(e.tp)]
+	if ct == nil {
+		return
+	}
+	vars := map[string]sval{}
+	for i, fv := range f.FreeVars {
+		if i >= len(mc.Bindings) {
+			break
+		}
+		b := mc.Bindings[i]
+		a := fr.addrOfSafe(b)
+		el := ptrElem(fv.Type())
+		if a != nil && a.kind == aCell {
+			vars[fv.Name()] = sval{t: fr.cur.get(a.comp), typ: el, sort: sortOf(el)}
+		}
+	}
+	for _, cl := range ct.Clauses {
+		if cl.Kind != "requires" {
+			continue
+		}
+		for _, cj := range splitConj(cl.Expr) {
+			se := fr.specEnvFor(fr.cur, nil, vars, false)
+			n0 := len(fr.c().obls)
+			fr.proveSpecEnv("pre", "precondition of closure "+f.Name()+" at its creation: "+cj.String(), cl, cj, se)
+			for _, o := range fr.c().obls[n0:] {
+				o.Pos = fr.posOf(mc) + " (" + o.Pos + ")"
+				o.Props = nil
+			}
+		}
+	}
+}
+
+// mapFieldComp: the field component a map value was loaded from (x.f), or "".
+func (fr *Frame) mapFieldComp(v ssa.Value) string {
+	ld, ok := v.(*ssa.UnOp)
+	if !ok || ld.Op != token.MUL {
+		return ""
+	}
+	if fa, ok := ld.X.(*ssa.FieldAddr); ok {
+		c, _ := fr.x.e.staticFieldComp(fa)
+		return c
+	}
+	// through a local variable holding the map
+	if a, ok := ld.X.(*ssa.Alloc); ok {
+		for _, r := range *a.Referrers() {
+			if st, ok := r.(*ssa.Store); ok && st.Addr == a {
+				return fr.mapFieldComp(st.Val)
+			}
+		}
+	}
+	return ""
 }
